@@ -14,6 +14,10 @@ CHECKS['C01'] = ('E4+E1', 'model_checking',
     '(a) the full product of forests (<=3 components) x component channels x handler sets (named, channel override, catch-all, global, inherited with/without override, implicit Component method) x (event name, firing component, target channel incl. instances) is fired on fresh real components and judged by the delivery predicate of the statement; (b) explicit-state BFS over register/unregister/addHandler/removeHandler/probe histories (canonical-state dedup) probes every root of every reached state on a fresh replay and compares with a ghost forest and with a cold build. Exhaustive below the bounds.',
     'Trusted: delivery predicate transcribed from the statement; unregister treated as a macro-op (behaviour during a pending unregistration is judged in C07); single target channel per fire.',
     'explicit-state BFS over operation histories of real components + bounded-exhaustive configuration product', 'DESIGN.md 6/C01')
+CHECKS['C04'] = ('E4', 'model_checking',
+    'Every program of the grammar (1-3 handlers per event with distinct priorities from 12 shapes: return value/None, raise, generators yielding 0-2 values, generators raising at step 0/1; all success/failure/notify/success_channels flag sets; optional nested event fired from a handler) is executed on a fresh real tree driven by tick() to quiescence; the Value, the errors flag, the per-raise exception/failure events, the exactly-once-and-late success event, every handler and a later sentinel event are judged on every execution.',
+    'Trusted: oracle transcribed from the statement; result order taken from the ghost log (task stepping order within one tick is whatever the set gives and is observed, not assumed); int results only.',
+    'bounded-exhaustive program enumeration on the real dispatcher/task machinery', 'DESIGN.md 6/C04')
 NOT_YET = {}
 def main():
     props = [json.loads(l) for l in open(os.path.join(HERE, 'properties.jsonl'))]
